@@ -142,7 +142,7 @@ func cmdCheck(args []string) int {
 		seed, _ = strconv.Atoi(s)
 	}
 	rep := &checkReport{prop: prop, tier: tier, notes: map[string]bool{}, t0: time.Now()}
-	os.RemoveAll(filepath.Join("/verif/replays", prop)) // replay files always describe the current run
+	os.RemoveAll(filepath.Join(outDir(), "replays", prop)) // replay files always describe the current run
 	e, err := newEngine(tier)
 	if err != nil {
 		return failHard(rep, seed, "load", fmt.Sprintf("cannot load /repo or the contracts: %v", err))
@@ -244,7 +244,7 @@ func slug(s string) string {
 }
 
 func failHard(rep *checkReport, seed int, kind, msg string) int {
-	dir := filepath.Join("/verif/replays", rep.prop)
+	dir := filepath.Join(outDir(), "replays", rep.prop)
 	os.MkdirAll(dir, 0o755)
 	path := filepath.Join(dir, kind+".json")
 	data, _ := json.MarshalIndent(map[string]interface{}{"property": rep.prop, "obligation": rep.prop + "/" + kind, "verdict": kind, "detail": msg}, "", " ")
@@ -306,7 +306,7 @@ func finish(e *Engine, rep *checkReport, seed int) int {
 		failed = append(failed, o)
 	}
 	violations := 0
-	dir := filepath.Join("/verif/replays", rep.prop)
+	dir := filepath.Join(outDir(), "replays", rep.prop)
 	for _, msg := range rep.genErrs {
 		os.MkdirAll(dir, 0o755)
 		path := filepath.Join(dir, "generation_"+slug(msg)+".json")
@@ -384,7 +384,7 @@ func finish(e *Engine, rep *checkReport, seed int) int {
 }
 
 func writeEvidence(rep *checkReport, seed, total, discharged, violations int, knownHit, failed []*Obligation) {
-	os.MkdirAll("/verif/evidence", 0o755)
+	os.MkdirAll(filepath.Join(outDir(), "evidence"), 0o755)
 	var samples []map[string]interface{}
 	kinds := map[string]int{}
 	perFunc := map[string]int{}
@@ -452,5 +452,14 @@ func writeEvidence(rep *checkReport, seed, total, discharged, violations int, kn
 		"violations":  violations,
 	}
 	data, _ := json.MarshalIndent(ev, "", " ")
-	os.WriteFile(filepath.Join("/verif/evidence", rep.prop+".json"), data, 0o644)
+	os.WriteFile(filepath.Join(outDir(), "evidence", rep.prop+".json"), data, 0o644)
+}
+
+// outDir is where evidence and replay files go: /verif, or $GOVC_OUT when a check is run against a
+// scratch copy of the repository (seed testing in parallel with the registered checks).
+func outDir() string {
+	if d := os.Getenv("GOVC_OUT"); d != "" {
+		return d
+	}
+	return "/verif"
 }
